@@ -77,7 +77,7 @@ Proof.
     assert (STEP : exists s1 f1, exec_to im pc s (padd pc (List.length c1)) s1 /\ rget s1 FREE = Some f1 /\
               (heap s1, f1) = rc_h s0 sp o (heap s, f) /\
               (forall r, r <> TEMP -> r <> FREE -> rget s1 r = rget s r) /\ stack s1 = stack s /\ out s1 = out s).
-    { destruct o as [t|t n]; cbn [emit_rc_op b_erase b_share_n x86_backend rc_temp rc_h] in *.
+    { destruct o as [t|t n]; cbn [emit_rc_op b_erase b_share_n x86_backend x86_backend_with rc_temp rc_h] in *.
       - replace c1 with (fst (x_erase_block t lc)) in * by (now rewrite E1).
         destruct (x86_erase_ok im pc s sp t lc p f CA1 LA1 F LT NT1 NF Hp' Vp FR) as (s1 & f1 & X1 & X2 & X3 & X4 & X5 & X6).
         exists s1, f1. rewrite PO. repeat split; auto.
@@ -151,7 +151,7 @@ Proof.
   destruct (connections x86_backend (transpose re ctx) ctx (map fst re)) as [am|e] eqn:CN; [|discriminate].
   cbn [rbind] in CS. destruct (parallel_moves_code x86_backend am) as [c2|e] eqn:PMC; [|discriminate].
   cbn [rbind] in CS. inversion CS; subst code lc'; clear CS.
-  cbn [b_jump_label x86_backend] in *.
+  cbn [b_jump_label b_mark x86_backend x86_backend_with app fst snd] in *.
   set (jmp := JMPL (show_ident l +++ "_")) in *.
   (* split the code *)
   apply code_at_app in CA as [CA1 CA23]. apply code_at_app in CA23 as [CA2 CA3].
